@@ -30,6 +30,7 @@ from ._util_sched import (
     fold,
     lock_protected_functions,
     root_attr,
+    root_attr_via,
     state_mutations,
     status_members,
     under_lock,
@@ -260,8 +261,18 @@ def r4(ctx):
     ctx.ob("R4", "slots defaults to 1", ok, func=f, node=ds[0].stmt if ds else f.node, instance="slots-default")
     # running predicate (P10)
     rj = p.func(f"{SCHED}._get_running_jobs")
+    # the predicate is the first argument of filter(): a lambda, or a named (nested) function of one `return <expr>`
     lam = [n for n in rj.body_nodes() if isinstance(n, ast.Lambda)]
-    ctx.require(len(lam) == 1, "C10.R4: running-jobs predicate (lambda) not found")
+    if not lam:
+        for c in rj.calls():
+            if unparse(c.func) == "filter" and c.args and isinstance(c.args[0], ast.Name):
+                for n in ast.walk(rj.node):
+                    if isinstance(n, ast.FunctionDef) and n.name == c.args[0].id:
+                        rets = [x for x in ast.walk(n) if isinstance(x, ast.Return)]
+                        stmts = [x for x in n.body if not (isinstance(x, ast.Pass) or (isinstance(x, ast.Expr) and isinstance(x.value, ast.Constant)))]
+                        if len(rets) == 1 and stmts == rets and rets[0].value is not None:
+                            lam.append(ast.Lambda(args=n.args, body=rets[0].value, lineno=n.lineno, col_offset=n.col_offset))
+    ctx.require(len(lam) == 1, "C10.R4: running-jobs predicate (lambda or single-return function) not found")
     body = lam[0].body
     members = status_members(p)
 
@@ -326,7 +337,7 @@ def r5(ctx):
            node=aug[0] if aug else f.node, instance="reserve-add",
            message="the reservation does not add the per-level requirement to the location's reserved hardware")
     # the job is registered on each level
-    reg = [c for c in f.calls() if isinstance(c.func, ast.Attribute) and c.func.attr == "append" and root_attr(c.func.value) == "location_allocations"]
+    reg = [c for c in f.calls() if isinstance(c.func, ast.Attribute) and c.func.attr == "append" and root_attr_via(f, c.func.value) == "location_allocations"]
     inloop = bool(reg) and any(isinstance(a, ast.While) for a in __import__("sfverif.model", fromlist=["ancestors"]).ancestors(reg[0]))
     ctx.ob("R5", "the job is registered in location_allocations at every level", bool(reg) and inloop and unparse(reg[0].args[0]) == "job.name",
            func=f, node=reg[0] if reg else f.node, instance="register-job")
@@ -389,7 +400,7 @@ VARIANTS = [
     V("external writer", SFILE, None, None, None, "R1",
       append="async def _steal(context, name):\n    context.scheduler.hardware_locations[name] = None\n"),
     # benign
-    V("rename comprehension var", SFILE, PT, "for (k, loc) in available_locations.items()", "for (k, l2) in available_locations.items()", None),
+    V("rename comprehension var", SFILE, PT, "{k: loc for k, loc in available_locations.items() if self._is_valid(connector=connector, location=loc,", "{k: l2 for k, l2 in available_locations.items() if self._is_valid(connector=connector, location=l2,", None),
     V("logging inside lock", SFILE, f"{SCHED}.notify_status", "self.wait_queue.notify_all()", "logger.debug('n')\n            self.wait_queue.notify_all()", None),
     V("slots as >=", SFILE, f"{SCHED}._is_valid", "if not len(self._get_running_jobs(job_name, location)) < slots:", "if len(self._get_running_jobs(job_name, location)) >= slots:", None),
 ]
